@@ -177,7 +177,11 @@ fn run_case(cfg: &Value, case: &Value, ln: usize) -> (Vec<Mismatch>, Value, Vec<
                     }
                 }
             }));
-            let _ = r;
+            if r.is_err() {
+                // Receiver::exec unwound: nothing the processor, the wait or a watcher does may take the receiver down
+                // (an observation for level A, which has no action for it)
+                rec.log(json!({"ev": "RecvPanicked"}));
+            }
             sched.finish();
         }));
     }
@@ -193,7 +197,7 @@ fn run_case(cfg: &Value, case: &Value, ln: usize) -> (Vec<Mismatch>, Value, Vec<
                     let item = idx * 10 + (k as i64 + 1);
                     set_current_item(item);
                     if op != "weCb" && op != "weCbPanic" && op != "blockTokio" {
-                        rec.log(json!({"ev": "SendCall", "item": item, "kind": match op.as_str() { "send" => "send", "try" => "try", _ => "block" }}));
+                        rec.log(json!({"ev": "SendCall", "item": item, "kind": match op.as_str() { "send" | "sendS" => "send", "try" => "try", _ => "block" }}));
                     }
                     if op == "weCb" || op == "weCbPanic" {
                         // a raw when_empty with an observed callback (weCbPanic: which then panics -
@@ -254,6 +258,18 @@ fn run_case(cfg: &Value, case: &Value, ln: usize) -> (Vec<Mismatch>, Value, Vec<
                     let res = match op.as_str() {
                         "send" => {
                             sender.send(item);
+                            "sent".to_string()
+                        }
+                        "sendS" => {
+                            // a plain send issued from inside a sampler of the channel's own metrics (a metrics reporter
+                            // whose destination is the emitter it describes): Batcher.tla's op "sendS"
+                            let first = std::cell::Cell::new(true);
+                            let source = sender.metric_source();
+                            emit::metric::Source::sample_metrics(&source, emit::metric::sampler::from_fn(|_m| {
+                                if first.replace(false) {
+                                    sender.send(item);
+                                }
+                            }));
                             "sent".to_string()
                         }
                         "try" | "block0" | "blockInf" => {
